@@ -8,6 +8,8 @@ VERIF = os.path.dirname(os.path.dirname(os.path.abspath(__file__)))
 TRUST = "rustc nightly HIR/typeck facts describe what stable builds; the fact exporter and rule engines (fail closed on anything unrecognised; self-validated by seeded mutants and benign variants); std/chrono/serde_json/clap library semantics as listed in the evidence"
 
 CLAIMED = {
+    "C01": dict(cat="other", tech="static analysis: panic-obligation ledger - guard-fact dataflow with difference-constraint closure and inductively checked loop invariants, verified callee summaries, units/boundary typestate, audited invariants with machine-checked premises, MIR-assert completeness cross-check",
+                text="Every panic-capable operation (140 on this tree) in the 50 functions reachable from clean/list/list_all and in the CLI's main is enumerated from the typed tree (cross-checked against the MIR Assert terminators) and must be discharged by a dominating guard / verified callee summary (48), the stated size-domain assumption for + and * (59), or an audited invariant whose code-shape premises are re-checked on every run (27); anything else is reported. The boundary half of str slices and of ranges handed to replace_range is judged by the units analysis. The audited invariants themselves (listed in the evidence), the std partial-function blacklist, stack depth and allocation failure are the trusted base.", ref="5 C01 / 3.4"),
     "C02": dict(cat="other", tech="static analysis: structural queries (deletion-only sinks, reverse application, merge-before-delete, pausing call sites) + abstract-interpretation byte-class tables of the scanners + provenance grammar of formatter range endpoints",
                 text="Decides the deletion discipline that the behaviour rests on, clause by clause (each necessary): only replace_range(_, \"\") touches the cleaned text, applied back to front, after sorted insertion and overlap merging; scanners skip only ' ' and '\\t' when pausing and report only a boundary '\\n' (complete composite tables over byte class x boundary x pause); every formatter range endpoint is the seam, a pausing-scan result or that + 1 on a line break; dedent ranges are clamped by the first non-blank; marker extents are token boundaries and the unwrap pair is guarded. Not the surviving text itself, nor sortedness maintained by merge_ranges.", ref="5 C02"),
     "C03": dict(cat="other", tech="static analysis: decision-table abstract interpretation of collect_removable_ranges + structural queries (strategy selection, registry wiring, marker extents)",
@@ -18,6 +20,8 @@ CLAIMED = {
                 text="The whole decision function over {attribute found, value present, parse ok, ordering of current vs expires} (24 rows) is extracted from the source by path-enumerating abstract interpretation and compared with the spec row by row, including the boundary second (equality) and monotonicity in the current time; wiring rules pin the parsed string, format, parser type and compared operands, and connect offset/current time to the configuration and the CLI options. chrono's parser and instant ordering are trusted.", ref="5 C05"),
     "C06": dict(cat="proof", tech="static analysis: exhaustive decision tables (marker evaluator, is_skip, skip/unregistered rows of the collection table) + name-use discipline query + clap-expansion query",
                 text="Finite truth tables of MarkerEvaluator::is_removal and is_skip and the skip/unregistered rows of the collection table are extracted exhaustively; every use of a tag/attribute name or value in the library is classified (exact ==, hash lookup, pass-through; substring/case-folding/trimming operations are violations); the clap Arg feeding the target set has no default.", ref="5 C06"),
+    "C07": dict(cat="other", tech="static analysis: units / boundary-typestate provenance analysis of tokenizer::tokenize + structural agreement queries",
+                text="Consistency and boundary-ness of the two offset systems: every byte offset stored in a Token or used as a slice bound is a char_indices position or str::len (never boundary + 1 without an ASCII guard), character offsets receive only the per-character counter, value slices use the same expressions as byte_start/byte_end, byte and char cursors move in tandem, Token literals exist only in the tokenizer and tokenize returns the adjacent-Text merge. Contiguity/coverage/non-emptiness as arithmetic facts are not decided.", ref="5 C07"),
     "C08": dict(cat="other", tech="static analysis: decision-table abstract interpretation of tokenizer::get_state restricted to the mismatch paths of partial-match states",
                 text="One clause only (re-examination): on every path where the current character aborts a partially matched start/end delimiter, the outcome forks on `c == first delimiter character` and does not fall back to the base state when equal. Necessary for tags preceded by a delimiter prefix. Self-overlapping delimiters, shortest-end matching and the body-character clause are not decided.", ref="5 C08"),
     "C09": dict(cat="proof", tech="static analysis: transducer extraction from the parser's fold closure (abstract interpretation per state x character class) + exhaustive product-automaton equivalence with the reference grammar transducer",
